@@ -292,6 +292,15 @@ def cases(tier, seed):
                 else:
                     kind_sets = [[k] for k in KINDS] + [list(t) for t in itertools.islice(itertools.permutations(KINDS, 7), 0, 181440, 9000)] + \
                                 [[rng.choice(KINDS) for _ in range(7)] for _ in range(6)]
+                if tier == "thorough":
+                    # one operand at a time takes each kind while the others stay literals (full product per position)
+                    nops = 7
+                    for j in range(nops):
+                        for kk in KINDS[1:]:
+                            ks = ["lit"] * nops
+                            ks[j] = kk
+                            kind_sets.append(ks)
+                    kind_sets += [[rng.choice(KINDS) for _ in range(7)] for _ in range(40)]
                 for ks in kind_sets:
                     n += 1
                     yield {"form": key, "pat": p, "extra": x, "kinds": ks, "init": n % 2 == 0, "in_if": n % 5 == 0,
